@@ -286,7 +286,7 @@ impl Check for C14 {
     fn plan(&self, tier: Tier) -> Plan {
         let ladder = Self::ladder_cases(tier);
         let counts = 14 * 3;
-        let mut p = Plan::new(ladder + counts + tier.pick(300, 20_000), tier.pick(40.0, 480.0));
+        let mut p = Plan::new(ladder + counts + tier.pick(1_500, 150_000), tier.pick(35.0, 420.0));
         p.mandatory = ladder + counts;
         p.cpu_budget_s = 120.0;
         p.workers = 8;
